@@ -53,6 +53,9 @@ void fb_join_all(fb_slot_t** s, int n);
 // the spawner is done with the slot (fiber joined): it may be recycled
 void fb_slot_release(fb_slot_t* s);
 
+// give the calling fiber a history: a blocking read ended by another fiber's close (leaves per-fiber state behind)
+void fb_interrupted_read(fb_slot_t* s);
+
 // number of hook hits of 'point' on the calling kernel thread
 long vp_thread_hits(int point);
 
